@@ -17,7 +17,7 @@ RULE = ("(a) programs of the core language with failure masks over every seriali
         "unsupported objects, nesting to depth 200, logged through real binary and text FileDestinations and a list destination; "
         "non-trivial = at least one injected fault actually reached (a) / at least one hostile value reached a destination (b)")
 TRUSTED = ["callbacks raise Exception subclasses (BaseException from a callback is outside the model)",
-           "extractors return dicts when they return; chains of extractors raising exceptions whose extractors raise are bounded by 8",
+           "extractors return dicts when they return",
            "MemoryError/RecursionError inside eliot's own frames and warnings-as-errors are outside the model"]
 ASSUMPTIONS = ["field names are valid Python keyword names not colliding with the API's own parameter names"]
 EXPLANATION = "app_outcome_unchanged for every environment by mutual structural induction; handler structure tied to the source by skeleton E5"
@@ -86,6 +86,11 @@ class BadBoth:
 class BadExc(Exception):
     def __str__(self):
         raise RuntimeError("no str for exception")
+
+
+# exception classes whose __module__ / __name__ are not what one expects of a class
+OddModule = type("RemoteError", (Exception,), {"__module__": None})
+OddModule2 = type("Weird", (KeyError,), {"__module__": 7})
 
 
 def hostile_value(rng, depth=0):
@@ -178,7 +183,7 @@ def hostile_run(ctx, i):
                         try:
                             block(depth + 1)
                             if rng.random() < 0.4:
-                                raise rng.choice([BadExc("boom"), ValueError(hostile_value(rng)), KeyboardInterrupt()])
+                                raise rng.choice([BadExc("boom"), ValueError(hostile_value(rng)), KeyboardInterrupt(), OddModule("odd"), OddModule2("odd2")])
                         except _Stop:
                             raise
                         except BaseException as e:  # noqa
